@@ -26,7 +26,7 @@ from .. import spec as S
 PID = "C14"
 LEVEL = "exploration"
 RULE = ("histories = sequence of 0..4 prior operations {construct, encode, encode twice} on documents of a "
-        "19-document pool (plain 3/5 columns, coloured x2, paginated, page_by, subline_by, grouped, raising "
+        "22-document pool (plain 3/5 columns, coloured x2, paginated, page_by, subline_by, grouped, raising "
         "ValueError, multi-section x2, figure, explicit/inherited headers), optionally sharing every "
         "equal-valued component object (page, body, header, title, footnote, source) with an earlier document, "
         "followed by constructing and encoding a target; all histories of length <=1 (quick) / <=2 (thorough) "
@@ -36,7 +36,7 @@ ASSUMPTIONS = ["a fresh `python -c` interpreter importing rtflite from the worki
 DECIDING = ["histories_run", "targets_compared", "encodes_observed", "df_snapshots_compared",
             "fresh_interpreter_baselines", "shared_component_histories", "after_failed_encode_histories"]
 FLOOR = {"quick": 1500, "thorough": 20000}
-EXHAUSTIVE_NOTE = {"quick": "all histories of length <=1 (19 docs x 3 ops x 19 targets x sharing on/off)",
+EXHAUSTIVE_NOTE = {"quick": "all histories of length <=1 (22 docs x 3 ops x 22 targets x sharing on/off)",
                    "thorough": "all histories of length <=2 with sharing off, length <=1 with sharing on"}
 OPS = ["new", "enc", "enc2"]
 COMPONENTS = ["page", "body", "colheader", "title", "subline", "footnote", "source", "page_header", "page_footer"]
@@ -62,6 +62,10 @@ def pool():
     P["w1_5"] = {"kind": "table", "df": tagged(3, 5), "body": {"col_rel_width": [1]}, "colheader": [{}], "title": TT}
     P["w2_2"] = {"kind": "table", "df": tagged(2, 2), "body": {"col_rel_width": [2.5]}, "colheader": "none",
                  "title": TT}
+    # one-column tables: every default attribute grid ([[""]]) already has the shape of a one-row page
+    P["c1r5"] = {"kind": "table", "df": tagged(5, 1), "body": {}, "page": {"nrow": 4}, "colheader": "none", "title": None}
+    P["c1r1"] = {"kind": "table", "df": tagged(1, 1), "body": {}, "colheader": "none", "title": None}
+    P["c2r3"] = {"kind": "table", "df": tagged(3, 2), "body": {}, "colheader": "none", "title": None}
     P["hdr3"] = {"kind": "table", "df": tagged(3, 3), "body": {}, "colheader": [{"text": ["H0c0", "H0c1", "H0c2"]}],
                  "title": TT}
     P["hdr3w"] = {"kind": "table", "df": tagged(3, 3), "body": {"col_rel_width": [1, 2, 3]},
